@@ -349,6 +349,7 @@ package sshd
 //@   | && sent(c.logins, s0).CredUserID == cred && sent(c.logins, s0).stamp == n + 1 && out[n].Outcome == "succeeded"
 
 //@ func processAcceptedPasswordEntry
+//@   blocks cancellable
 //@   requires CfgOK(config)
 //@   modifies out, chans
 //@   allocates
@@ -371,6 +372,7 @@ package sshd
 //@ pred PKCred(line) := ite(PKCert(line), group(certIDRE, PKRest(line), "UserID"), "unknown")
 
 //@ func processAcceptPublicKeyEntry
+//@   blocks cancellable
 //@   requires CfgOK(config)
 //@   modifies out, ctr, chans
 //@   allocates
@@ -412,6 +414,7 @@ package sshd
 //@   ensures[ctr] OneCount("ssh-cert", "failure")
 
 //@ func ProcessEntry
+//@   blocks cancellable
 //@   requires CfgOK(config)
 //@   modifies out, ctr, chans
 //@   allocates
@@ -446,6 +449,7 @@ package sshd
 //@ ghost g_sshd_ctx : Int
 
 //@ func (*SshdProcessorer).ProcessSshdLogEntry
+//@   blocks cancellable
 //@   requires s != nil && s.metrics != nil && s.metrics.remoteLogins != nil && s.eventW != nil && ctx != nil
 //@   ghost g_sshd_calls := g_sshd_calls + 1
 //@   ghost g_sshd_pid := sm.PID
